@@ -35,6 +35,14 @@ def step_request(st, r):
 def check_step(st, r, ans):
     """-> list of discrepancies between the real run and the model / the property"""
     bad = []
+    refused = [r[k]["err"] for k in ("mat_before", "prod_after") if isinstance(r.get(k), dict) and "err" in r[k]]
+    if refused:
+        # the specification of recording refuses this tree (two files under one name after prefix stripping):
+        # the step must fail too, and leave no link
+        if r["exc"] == "PrefixError" and not r["file_exists"]:
+            return []
+        return ["the specification refuses to record this step (%s) but in_toto_run %s" % (
+            refused[0], "raised " + r["exc"] if r["exc"] else "wrote a link")]
     if r["exc"]:
         return ["in_toto_run raised %s on an honest step" % r["exc"]]
     if not r["file_exists"]:
